@@ -25,6 +25,8 @@
 //   row <lo> <hi> <op> <args...>   runs "<op> <args...> y" for every y in [lo, hi]; the legs are the
 //                             per-y legs joined by " ; "
 //   rox <lo> <hi> <op> <args...> <last>   the same with y inserted before the last argument
+//   swp / swx <lo> <hi> <op> <args...>    as row / rox with the legs digested: "ok n=<count> h=<hash of the sub-legs>
+//                             bad=<first y whose impl sub-leg differs from the reference sub-leg, or ->" (full 2^16 sweeps)
 #include "common.hpp"
 
 #include <algorithm>
@@ -524,10 +526,33 @@ static bool run_one(std::string const& op, Toks& in, Out& impl, Out& ref)
     return false;
 }
 
+// digest of a sequence of sub-legs (the same two polynomial hashes in driver.ml)
+struct Digest {
+    u64 a = 7;
+    u64 b = 11;
+    void add(std::string const& s)
+    {
+        for (unsigned char c : s) {
+            a = (a * 1000003ULL + c) % 2147483647ULL;
+            b = (b * 999983ULL + c) % 2147483629ULL;
+        }
+        a = (a * 1000003ULL + 59ULL) % 2147483647ULL;
+        b = (b * 999983ULL + 59ULL) % 2147483629ULL;
+    }
+    std::string str() const { return std::to_string(a) + "." + std::to_string(b); }
+};
+
 bool vh::run_case(std::string const& op, Toks& in, Out& impl, Out& ref)
 {
-    if (op != "row" && op != "rox") { return run_one(op, in, impl, ref); }
-    bool before_last = op == "rox";
+    if (op != "row" && op != "rox" && op != "swp" && op != "swx") { return run_one(op, in, impl, ref); }
+    bool before_last = op == "rox" || op == "swx";
+    // swp / swx: as row / rox, but the legs are "ok n=<count> h=<digest of the sub-legs> bad=<first y whose impl
+    // sub-leg differs from its reference sub-leg, or ->" (whole 2^16 sweeps without 2^16 sub-legs of text)
+    bool digest = op == "swp" || op == "swx";
+    Digest di;
+    Digest dr;
+    i64 count = 0;
+    std::string bad = "-";
     i64 lo = in.num();
     i64 hi = in.num();
     std::string sub = in.str();
@@ -549,9 +574,20 @@ bool vh::run_case(std::string const& op, Toks& in, Out& impl, Out& ref)
         // outside the documented domain (reference "na") only impl = model is checked: the row's
         // reference leg repeats the impl sub-leg there (the driver does the same with the model's)
         if (r1.empty() || r1.s == "na") { r1.s = i1.s; }
+        if (digest) {
+            di.add(i1.s);
+            dr.add(r1.s);
+            ++count;
+            if (bad == "-" && i1.s != r1.s) { bad = std::to_string(y); }
+            continue;
+        }
         if (y != lo) { impl.tok(";"); ref.tok(";"); }
         impl.tok(i1.s);
         ref.tok(r1.s);
+    }
+    if (digest) {
+        impl.tok("ok").tok("n=" + std::to_string(count)).tok("h=" + di.str()).tok("bad=" + bad);
+        ref.tok("ok").tok("n=" + std::to_string(count)).tok("h=" + dr.str()).tok("bad=-");
     }
     return all;
 }
